@@ -33,7 +33,8 @@ class Raise:
         return "Raise(%s)" % self.cls
 
 
-REPO_EXC = {"Skip": "Exception", "$User": "Exception", "ParamOverrides": None}
+REPO_EXC = {"Skip": "Exception", "$User": "Exception", "ParamOverrides": None,
+            "UnserializableException": "Exception", "UnsafeserializableException": "Exception"}
 
 
 def exc_matches(cls, handler):
